@@ -210,6 +210,8 @@ class DocGen:
                'ref': '{{>http://x.y/z %s}}', 'term': '{{term{refersTo #t} %s}}', 'abbr': '{{abbr{title T} %s}}',
                'em': '{{em %s}}', 'ins': '{{+%s}}', 'del': '{{-%s}}', 'def': '{{def %s}}',
                'inline': '{{inline{name foo} %s}}', 'remark': '{{*%s}}'}[k]
+        if k in ('term', 'abbr', 'inline', 'em') and rnd.random() < 0.12:
+            fmt = '{{%s{} %%s}}' % k     # an attribute list that is present but empty
         return fmt % inner
 
     def text(self):
@@ -222,7 +224,7 @@ class DocGen:
             # payload words as classes: a dotted class whose name is a prefix of the first explicit class
             a, b = self.w.one(), self.w.one()
             return '.%s{class %s00 %s}' % (a, a, b) if self.rng.random() < 0.6 else '.%s.%s' % (a, b)
-        return self.rng.choice(['.cls', '.a.b', '{status editorial}', '.c{refersTo #x}', '{class z}', '.col{class column-wide}', '.foo.b{class foo bar|refersTo #x}'])
+        return self.rng.choice(['.cls', '.a.b', '{status editorial}', '.c{refersTo #x}', '{class z}', '.col{class column-wide}', '.foo.b{class foo bar|refersTo #x}', '{}'])
 
     def corner(self, ind):
         """legal but unusual forms: bare keywords, empty elements, headings without nums, odd nums"""
@@ -770,6 +772,14 @@ def pairwise_docs(tokens=False):
                          ('narrative', 'DEBATESECTION\n  SPEECH\n    FROM ~a\n    NARRATIVE ~n %s\n    FOOTNOTE 1\n      ~note\n'),
                          ('summary', 'DEBATESECTION\n  SUMMARY ~s %s\n  FOOTNOTE 1\n    ~note\n')]:
             out.append(('%s/fn-depth%d' % (pn, d), _pw_finish(tmpl.replace('%s', ref), tokens), 'debate' if pn in ('scene', 'narrative', 'summary') else 'act'))
+    # a judgment container written with its marker and nothing in it, before / after a container with content
+    JM = ['INTRODUCTION', 'BACKGROUND', 'ARGUMENTS', 'REMEDIES', 'MOTIVATION', 'DECISION']
+    for i, m in enumerate(JM):
+        other = JM[(i + 1) % len(JM)] if i + 1 < len(JM) else None
+        if other:
+            out.append(('judgment/empty-%s-first' % m.lower(), _pw_finish('%s\n%s\n  ~x\n' % (m, other), tokens), 'judgment'))
+        if i > 0:
+            out.append(('judgment/empty-%s-last' % m.lower(), _pw_finish('%s\n  ~x\n%s\n' % (JM[i - 1], m), tokens), 'judgment'))
     # a remark that spans two lines, in every position that holds inline content (the continuation line at the line's own indentation)
     for pn, tmpl, root in [('para', '~p {{*~a\n~b}} ~q\n', 'act'), ('hierpara', 'SEC 1.\n  ~p {{*~a\n  ~b}} ~q\n', 'act'),
                            ('heading', 'PART 1\n  SEC 1. - ~H {{*~a\n  ~b}}\n    ~x\n', 'act'), ('subheading', 'SEC 1.\n  SUBHEADING ~S {{*~a\n  ~b}}\n  ~x\n', 'act'),
